@@ -762,23 +762,26 @@ def removeVirtual (a : Acc) (s : Nat) (r vkey : String) : Acc :=
         let h1 : Hub := { a.h with vtable := fun p k => if p = s ∧ k = vkey then none else a.h.vtable p k }
         closeSession { a with h := h1 } v
 
+/-- `Room.NotifySessionChanged(session, SessionChangeInCall)` for an internal session. -/
+def roomInCallUpdate (a : Acc) (b : Nat) (room : Option String) (s inCall : Nat) : Acc :=
+  match room with
+  | none => a
+  | some r =>
+    match a.h.rooms b r with
+    | none => a
+    | some rm =>
+      let rm1 : Room := if inCall % 2 = 1
+        then { rm with inCall := if rm.inCall.contains s then rm.inCall else rm.inCall ++ [s] }
+        else { rm with inCall := removeL rm.inCall s }
+      publishUsersChangedWithInternal { a with h := setRoom a.h b r (some rm1) } b r
+
 def internalInCall (a : Acc) (s : Nat) (inCall : Nat) : Acc :=
   match a.h.sess s with
   | none => a
   | some x =>
     if x.kind ≠ .internal then a else
     if x.inCall = inCall then a else
-    let h1 := setSess a.h s (some { x with inCall := inCall })
-    match x.room with
-    | none => { a with h := h1 }
-    | some r =>
-      match h1.rooms x.backend r with
-      | none => { a with h := h1 }
-      | some rm =>
-        let rm1 : Room := if inCall % 2 = 1
-          then { rm with inCall := if rm.inCall.contains s then rm.inCall else rm.inCall ++ [s] }
-          else { rm with inCall := removeL rm.inCall s }
-        publishUsersChangedWithInternal { a with h := setRoom h1 x.backend r (some rm1) } x.backend r
+    roomInCallUpdate { a with h := setSess a.h s (some { x with inCall := inCall }) } x.backend x.room s inCall
 
 /-! ### room API of the backend (backend_server.go + room.go consumers) -/
 
@@ -805,87 +808,117 @@ inductive Api
 def fixup (h : Hub) (b : Nat) (l : List (String × Nat)) : List PUser :=
   l.filterMap fun (rs, ic) => (lookupRs h b rs).map fun s => { sid := s, inCall := ic, tag := 0 }
 
+def pubUsers (a : Acc) (b : Nat) (users : List String) (m : Msg) : Acc :=
+  users.foldl (fun a u => pubUser a b u (.msg m)) a
+
+/-- A message for the session that uses Nextcloud session id `rs` (on the caller's backend). -/
+def sendToRs (b : Nat) (m : AMsg) (a : Acc) (rs : String) : Acc :=
+  match lookupRs a.h b rs with
+  | some s => procSession a s m
+  | none => a
+
+def apiInvite (a : Acc) (b : Nat) (r : String) (users allUsers : List String) : Acc :=
+  let a1 := pubUsers a b users (.roomlist "invite" r)
+  pubUsers a1 b (allUsers.filter (fun u => !users.contains u)) (.roomlist "update" r)
+
+def apiDisinvite (a : Acc) (b : Nat) (r : String) (users rsids allUsers : List String) : Acc :=
+  let a1 := pubUsers a b users (.roomlist "disinvite" r)
+  let a2 := rsids.foldl (sendToRs b (.msg (.roomlist "disinvite" r))) a1
+  pubUsers a2 b (allUsers.filter (fun u => !users.contains u)) (.roomlist "update" r)
+
+/-- `Room.notifyInternalRoomDeleted` for one member. -/
+def notifyRoomDeleted (a : Acc) (s : Nat) : Acc :=
+  match a.h.sess s with
+  | some x => if x.kind = .internal then sendTo a s .roomDeleted else a
+  | none => a
+
+/-- One former member of a deleted room: `session.LeaveRoom(true)` (the room is closed already,
+so nobody is notified), then the room message. -/
+def deleteLeave (a : Acc) (s : Nat) : Acc :=
+  match a.h.sess s with
+  | none => a
+  | some x =>
+    let (a', _) := leaveRoom a s
+    if x.kind ≠ .virtual && x.conn.isSome then sendTo a' s (.room "") else a'
+
+def apiDelete (a : Acc) (b : Nat) (r : String) : Acc :=
+  match a.h.rooms b r with
+  | none => a
+  | some rm =>
+    let a1 := rm.members.foldl notifyRoomDeleted a
+    -- Room.Close: the room is gone before its sessions leave
+    rm.members.foldl deleteLeave { a1 with h := setRoom a1.h b r none }
+
+def apiMessage (a : Acc) (b : Nat) (r : String) (data : String) : Acc :=
+  if data = "" then a else
+  match a.h.rooms b r with
+  | none => a
+  | some _ => pubRoom a b r (.msg (.roomMsg data))
+
+def sendAll (a : Acc) (ss : List Nat) (m : Msg) : Acc := ss.foldl (fun a s => sendTo a s m) a
+
+def apiIncallAll (a : Acc) (b : Nat) (r : String) (inCall : Nat) : Acc :=
+  match a.h.rooms b r with
+  | none => a
+  | some rm =>
+    let clients := rm.members.filter (fun s => match a.h.sess s with | some x => x.kind ≠ .virtual | none => false)
+    if inCall % 2 = 1 then
+      let eligible := clients.filter (fun s => match a.h.sess s with | some x => x.kind = .client | none => false)
+      let joined := eligible.filter (fun s => !rm.inCall.contains s)
+      if joined = [] then a else
+      sendAll { a with h := setRoom a.h b r (some { rm with inCall := rm.inCall ++ joined }) } eligible (.partAll inCall)
+    else if rm.inCall ≠ [] then
+      sendAll { a with h := setRoom a.h b r (some { rm with inCall := [] }) } clients (.partAll inCall)
+    else a
+
+def apiIncall (a : Acc) (b : Nat) (r : String) (changed users : List (String × Nat)) : Acc :=
+  let cs := fixup a.h b changed
+  let us := fixup a.h b users
+  if cs = [] && us = [] then a else
+  match a.h.rooms b r with
+  | none => a
+  | some rm =>
+    let ic := cs.foldl (fun ic u => if u.inCall % 2 = 1 then (if ic.contains u.sid then ic else ic ++ [u.sid]) else removeL ic u.sid) rm.inCall
+    let rm1 : Room := { rm with users := us, inCall := ic }
+    let a1 : Acc := { a with h := setRoom a.h b r (some rm1) }
+    -- recipients see changed entries merged into the users list (ClientSession.filterMessage)
+    let base := addInternalSessions a1.h rm1 us
+    pubRoom a1 b r (.msg (.partUsers (base ++ cs.filter (fun c => !(base.map (·.sid)).contains c.sid))))
+
+/-- The permissions part of a participants request, for one changed entry. -/
+def sendPerms (a : Acc) (e : Nat × Option (List String)) : Acc :=
+  match e.2 with
+  | some ps => procSession a e.1 (.perms ps)
+  | none => a
+
+def apiParticipants (a : Acc) (b : Nat) (r : String) (changed : List (String × Option (List String))) (users : List String) : Acc :=
+  let cs := changed.filterMap fun (rs, p) => (lookupRs a.h b rs).map fun s => (s, p)
+  let us := fixup a.h b (users.map fun rs => (rs, 0))
+  if cs = [] && us = [] then a else
+  let a1 := cs.foldl sendPerms a
+  match a1.h.rooms b r with
+  | none => a1
+  | some rm =>
+    let csU : List PUser := cs.map fun (s, _) => { sid := s, inCall := 0, tag := 0 }
+    let base := addInternalSessions a1.h rm us
+    pubRoom a1 b r (.msg (.partUsers (base ++ csU.filter (fun c => !(base.map (·.sid)).contains c.sid))))
+
+def apiSwitchto (a : Acc) (b : Nat) (r room : String) (rsids : List String) : Acc :=
+  let ss := rsids.filterMap (lookupRs a.h b)
+  if ss = [] then a else
+  match a.h.rooms b r with
+  | none => a
+  | some _ => ss.foldl (fun a s => procSession a s (.msg (.switchto room))) a
+
 def processApi (a : Acc) (b : Nat) (r : String) : Api → Acc
-  | .invite users allUsers =>
-    let a1 := users.foldl (fun a u => pubUser a b u (.msg (.roomlist "invite" r))) a
-    (allUsers.filter (fun u => !users.contains u)).foldl (fun a u => pubUser a b u (.msg (.roomlist "update" r))) a1
-  | .disinvite users rsids allUsers =>
-    let a1 := users.foldl (fun a u => pubUser a b u (.msg (.roomlist "disinvite" r))) a
-    let a2 := rsids.foldl (fun a rs =>
-      match lookupRs a.h b rs with
-      | some s => procSession a s (.msg (.roomlist "disinvite" r))
-      | none => a) a1
-    (allUsers.filter (fun u => !users.contains u)).foldl (fun a u => pubUser a b u (.msg (.roomlist "update" r))) a2
-  | .delete =>
-    match a.h.rooms b r with
-    | none => a
-    | some rm =>
-      -- notifyInternalRoomDeleted
-      let a1 := rm.members.foldl (fun a s =>
-        match a.h.sess s with
-        | some x => if x.kind = .internal then sendTo a s .roomDeleted else a
-        | none => a) a
-      -- Room.Close: the room is gone before its sessions leave
-      let a2 : Acc := { a1 with h := setRoom a1.h b r none }
-      rm.members.foldl (fun a s =>
-        match a.h.sess s with
-        | none => a
-        | some x =>
-          let (a', _) := leaveRoom a s
-          if x.kind ≠ .virtual && x.conn.isSome then sendTo a' s (.room "") else a') a2
-  | .message data =>
-    if data = "" then a else
-    match a.h.rooms b r with
-    | none => a
-    | some _ => pubRoom a b r (.msg (.roomMsg data))
-  | .incallAll inCall =>
-    match a.h.rooms b r with
-    | none => a
-    | some rm =>
-      let clients := rm.members.filter (fun s => match a.h.sess s with | some x => x.kind ≠ .virtual | none => false)
-      if inCall % 2 = 1 then
-        let eligible := clients.filter (fun s => match a.h.sess s with | some x => x.kind = .client | none => false)
-        let joined := eligible.filter (fun s => !rm.inCall.contains s)
-        if joined = [] then a else
-        let a1 : Acc := { a with h := setRoom a.h b r (some { rm with inCall := rm.inCall ++ joined }) }
-        eligible.foldl (fun a s => sendTo a s (.partAll inCall)) a1
-      else if rm.inCall ≠ [] then
-        let a1 : Acc := { a with h := setRoom a.h b r (some { rm with inCall := [] }) }
-        clients.foldl (fun a s => sendTo a s (.partAll inCall)) a1
-      else a
-  | .incall changed users =>
-    let cs := fixup a.h b changed
-    let us := fixup a.h b users
-    if cs = [] && us = [] then a else
-    match a.h.rooms b r with
-    | none => a
-    | some rm =>
-      let ic := cs.foldl (fun ic u => if u.inCall % 2 = 1 then (if ic.contains u.sid then ic else ic ++ [u.sid]) else removeL ic u.sid) rm.inCall
-      let rm1 : Room := { rm with users := us, inCall := ic }
-      let a1 : Acc := { a with h := setRoom a.h b r (some rm1) }
-      -- recipients see changed entries merged into the users list (ClientSession.filterMessage)
-      let base := addInternalSessions a1.h rm1 us
-      pubRoom a1 b r (.msg (.partUsers (base ++ cs.filter (fun c => !(base.map (·.sid)).contains c.sid))))
-  | .participants changed users =>
-    let cs := changed.filterMap fun (rs, p) => (lookupRs a.h b rs).map fun s => (s, p)
-    let us := fixup a.h b (users.map fun rs => (rs, 0))
-    if cs = [] && us = [] then a else
-    let a1 := cs.foldl (fun a (s, p) =>
-      match p with
-      | some ps => procSession a s (.perms ps)
-      | none => a) a
-    match a1.h.rooms b r with
-    | none => a1
-    | some rm =>
-      let csU : List PUser := cs.map fun (s, _) => { sid := s, inCall := 0, tag := 0 }
-      let base := addInternalSessions a1.h rm us
-      pubRoom a1 b r (.msg (.partUsers (base ++ csU.filter (fun c => !(base.map (·.sid)).contains c.sid))))
-  | .switchto room rsids =>
-    let ss := rsids.filterMap (lookupRs a.h b)
-    if ss = [] then a else
-    match a.h.rooms b r with
-    | none => a
-    | some _ => ss.foldl (fun a s => procSession a s (.msg (.switchto room))) a
+  | .invite users allUsers => apiInvite a b r users allUsers
+  | .disinvite users rsids allUsers => apiDisinvite a b r users rsids allUsers
+  | .delete => apiDelete a b r
+  | .message data => apiMessage a b r data
+  | .incallAll inCall => apiIncallAll a b r inCall
+  | .incall changed users => apiIncall a b r changed users
+  | .participants changed users => apiParticipants a b r changed users
+  | .switchto room rsids => apiSwitchto a b r room rsids
 
 /-! ### operations -/
 
@@ -918,7 +951,9 @@ def connected (h : Hub) (s : Nat) : Bool :=
 
 def stepAcc (a : Acc) : Op → Acc
   | .connect c => connect a c
-  | .hello c b kind user d i => processHello a c b kind user d i
+  | .hello c b kind user d i =>
+    -- clients say hello as `client` or `internal`; virtual sessions only come from `addsession`
+    if kind = .virtual then a else processHello a c b kind user d i
   | .resume c s => processResume a c s
   | .disconnect c => processDisconnect a c
   | .bye c => processBye a c
